@@ -80,7 +80,10 @@ def apply(name):
         rc, o = sh("git -C /repo worktree add -q --detach %s HEAD" % wt)
         if rc:
             print(o); return 1
-    rc, o = sh("git checkout -q -- . && git apply %s" % os.path.join(VERIF, "seeded", name, "patch.diff"), cwd=wt)
+    patch = os.path.join(VERIF, "seeded", name, "patch.diff")
+    if not os.path.exists(patch):
+        patch = os.path.join(OUT, name, "patch.diff")          # not kept yet: the agent's own copy
+    rc, o = sh("git checkout -q -- . && git apply %s" % patch, cwd=wt)
     print(o or "applied %s in %s" % (name, wt))
     os.makedirs(os.path.join(OUT, name), exist_ok=True)
     return rc
